@@ -1,10 +1,862 @@
-// Package c19 holds the runtime monitors for property C19 (see DESIGN.md section 4).
+// Package c19 holds the runtime monitors for property C19 (see DESIGN.md
+// section 4): the Go function bridge (stdlib.ECALFunctionAdapter) is total
+// and converts numbers faithfully.
+//
+// Every case calls the real adapter of /repo around a Go function with an
+// argument vector over the ECAL value universe and compares what comes back
+// with a small reference written from the property statement: the Go
+// function called directly (through the harness' own reflection code) with
+// the numeric arguments converted by Go's own conversions.
 package c19
 
-import "verif/harness/core"
+import (
+	"fmt"
+	"math"
+	"reflect"
+	"sort"
+	"strings"
+	"sync"
+
+	"github.com/krotik/ecal/interpreter"
+	"github.com/krotik/ecal/parser"
+	"github.com/krotik/ecal/scope"
+	"github.com/krotik/ecal/stdlib"
+	"github.com/krotik/ecal/util"
+
+	"verif/harness/core"
+)
 
 func init() { core.Register("C19", Run) }
 
+// strictAssignable: when true, a call whose every argument is assignable to
+// its parameter by Go's rules (a string for an interface{} parameter, a
+// second argument for a variadic parameter) must return the function's
+// results. The statement only says that such calls return "results or a
+// descriptive error", so by default a rejection of such a call is counted as
+// an observation, not as a violation. Exact type matches and numbers for
+// numeric parameters are always required to go through (the statement's
+// conversion clause).
+var strictAssignable = false
+
+// ---------------------------------------------------------------------------
+// value universe
+// ---------------------------------------------------------------------------
+
+type uval struct {
+	tag string
+	v   interface{}
+}
+
+var universe = []uval{
+	{"null", nil},
+	{"true", true},
+	{"false", false},
+	{"zero", 0.0},
+	{"negzero", math.Copysign(0, -1)},
+	{"one", 1.0},
+	{"minus1", -1.0},
+	{"half", 0.5},
+	{"minus5", -5.0},
+	{"n300", 300.0},
+	{"e18", 1e18},
+	{"e308", 1e308},
+	{"empty", ""},
+	{"numstr", "5"},
+	{"str", "a"},
+	{"elist", []interface{}{}},
+	{"nlist", []interface{}{1.0, []interface{}{2.0, "x"}}},
+	{"emap", map[interface{}]interface{}{}},
+	{"nmap", map[interface{}]interface{}{"a": 1.0, 2.0: []interface{}{1.0}}},
+	{"func", ecalFn{}},
+}
+
+// numbers for the identity functions: boundaries of every integer kind,
+// fractions on both sides of them, values beyond float32, non-finite values.
+var numbers = []float64{
+	0, math.Copysign(0, -1), 1, -1, 0.5, -0.5, 1.5, -1.5, 1.9, -1.9, 0.1, 1.0 / 3,
+	126.9, 127, 127.5, 128, -128, -128.9, -129, 255, 255.9, 256, 300,
+	32767, 32767.9, 32768, -32768, -32769, 65535, 65535.5, 65536,
+	2147483647, 2147483647.5, 2147483648, -2147483648, -2147483649, 4294967295, 4294967295.5, 4294967296,
+	1 << 53, 1<<53 + 2, -(1 << 53), 1<<63 - 1024, 1 << 63, -(1 << 63), -(1 << 63) - 2048, 1<<64 - 2048, 1 << 64,
+	1e10, 1e18, 1e19, 1e20, 16777216, 16777217, 1e38, 3.4e38, math.MaxFloat32, 3.5e38, 1e39, 1e308, -1e308,
+	math.MaxFloat64, math.SmallestNonzeroFloat64, math.SmallestNonzeroFloat32, 1e-46, -1e-46,
+	math.NaN(), math.Inf(1), math.Inf(-1),
+}
+
+func vecCount(u, n int) int {
+	t, p := 0, 1
+	for k := 0; k <= n; k++ {
+		t += p
+		p *= u
+	}
+	return t
+}
+
+func vecAt(u, i int) []int {
+	n, p := 0, 1
+	for i >= p {
+		i -= p
+		p *= u
+		n++
+	}
+	v := make([]int, n)
+	for k := n - 1; k >= 0; k-- {
+		v[k] = i % u
+		i /= u
+	}
+	return v
+}
+
+// ---------------------------------------------------------------------------
+// reference bridge
+// ---------------------------------------------------------------------------
+
+var errorType = reflect.TypeOf((*error)(nil)).Elem()
+
+func isNumericKind(k reflect.Kind) bool {
+	switch k {
+	case reflect.Int, reflect.Int8, reflect.Int16, reflect.Int32, reflect.Int64,
+		reflect.Uint, reflect.Uint8, reflect.Uint16, reflect.Uint32, reflect.Uint64, reflect.Uintptr,
+		reflect.Float32, reflect.Float64:
+		return true
+	}
+	return false
+}
+
+// toKind converts x with Go's own conversion T(x) for the basic type of kind k
+// and returns float64(T(x)); inRange tells whether Go defines the result.
+func toKind(k reflect.Kind, x float64) (res float64, inRange bool) {
+	t := math.Trunc(x)
+	finite := !math.IsNaN(x) && !math.IsInf(x, 0)
+	between := func(lo, hi float64) bool { return finite && t >= lo && t <= hi }
+	const two63, two64 = 9223372036854775808.0, 18446744073709551616.0
+	switch k {
+	case reflect.Int8:
+		return float64(int8(x)), between(math.MinInt8, math.MaxInt8)
+	case reflect.Int16:
+		return float64(int16(x)), between(math.MinInt16, math.MaxInt16)
+	case reflect.Int32:
+		return float64(int32(x)), between(math.MinInt32, math.MaxInt32)
+	case reflect.Int64:
+		return float64(int64(x)), finite && t >= -two63 && t < two63
+	case reflect.Int:
+		return float64(int(x)), finite && t >= -two63 && t < two63
+	case reflect.Uint8:
+		return float64(uint8(x)), between(0, math.MaxUint8)
+	case reflect.Uint16:
+		return float64(uint16(x)), between(0, math.MaxUint16)
+	case reflect.Uint32:
+		return float64(uint32(x)), between(0, math.MaxUint32)
+	case reflect.Uint64:
+		return float64(uint64(x)), finite && t >= 0 && t < two64
+	case reflect.Uint:
+		return float64(uint(x)), finite && t >= 0 && t < two64
+	case reflect.Uintptr:
+		return float64(uintptr(x)), finite && t >= 0 && t < two64
+	case reflect.Float32:
+		return float64(float32(x)), !finite || math.Abs(x) <= math.MaxFloat32
+	case reflect.Float64:
+		return x, true
+	}
+	return 0, false
+}
+
+// convertArg builds the reflect.Value of kind k / type p that carries T(x).
+func convertArg(p reflect.Type, x float64) reflect.Value {
+	v := reflect.New(p).Elem()
+	switch p.Kind() {
+	case reflect.Int8:
+		v.SetInt(int64(int8(x)))
+	case reflect.Int16:
+		v.SetInt(int64(int16(x)))
+	case reflect.Int32:
+		v.SetInt(int64(int32(x)))
+	case reflect.Int64:
+		v.SetInt(int64(x))
+	case reflect.Int:
+		v.SetInt(int64(int(x)))
+	case reflect.Uint8:
+		v.SetUint(uint64(uint8(x)))
+	case reflect.Uint16:
+		v.SetUint(uint64(uint16(x)))
+	case reflect.Uint32:
+		v.SetUint(uint64(uint32(x)))
+	case reflect.Uint64:
+		v.SetUint(uint64(x))
+	case reflect.Uint:
+		v.SetUint(uint64(uint(x)))
+	case reflect.Uintptr:
+		v.SetUint(uint64(uintptr(x)))
+	case reflect.Float32:
+		v.SetFloat(float64(float32(x)))
+	case reflect.Float64:
+		v.SetFloat(x)
+	}
+	return v
+}
+
+type argClass int
+
+const (
+	argExact      argClass = iota // same type, or a number for a numeric parameter in range
+	argAssignable                 // assignable by Go's rules (interface parameter)
+	argOutOfRange                 // number for a numeric parameter, Go leaves the conversion undefined
+	argNull                       // NULL
+	argWrong                      // wrong kind: an error is demanded
+)
+
+type expectation struct {
+	mustError    bool   // ill-formed call (arity, wrong kind) or panicking function
+	anything     bool   // out-of-range conversion or NULL: any non-panicking answer
+	assignable   bool   // well formed only by assignability / variadic packing
+	why          string // for reports
+	whyKey       string // arity | wrong-kind | go-panic
+	feature      string // named-numeric | builtin-numeric | interface-param | variadic-extra | variadic-typed | exact
+	results      []interface{}
+	goErr        error
+	goPanicked   bool
+	directCalled bool
+}
+
+// expect computes what the statement demands for fn(args).
+func expect(fn reflect.Value, args []interface{}) expectation {
+	t := fn.Type()
+	nin := t.NumIn()
+	var e expectation
+	e.feature = "exact"
+	fixed := nin
+	if t.IsVariadic() {
+		fixed = nin - 1
+	}
+	if len(args) < fixed {
+		return expectation{mustError: true, why: "too few arguments", whyKey: "arity"}
+	}
+	if len(args) > nin && !t.IsVariadic() {
+		return expectation{mustError: true, why: "too many arguments", whyKey: "arity"}
+	}
+	in := make([]reflect.Value, len(args))
+	for i, a := range args {
+		var p reflect.Type
+		if i >= fixed {
+			p = t.In(nin - 1).Elem()
+			if i > fixed {
+				e.assignable, e.feature = true, "variadic-extra"
+			} else if p.Kind() != reflect.Interface {
+				e.assignable, e.feature = true, "variadic-typed"
+			}
+		} else {
+			p = t.In(i)
+		}
+		switch x := a.(type) {
+		case nil:
+			e.anything = true
+			e.why = "NULL argument"
+			continue
+		case float64:
+			if isNumericKind(p.Kind()) {
+				if _, ok := toKind(p.Kind(), x); !ok {
+					e.anything = true
+					e.why = "number outside the parameter type's range"
+					continue
+				}
+				in[i] = convertArg(p, x)
+				if p.PkgPath() != "" && e.feature == "exact" {
+					e.feature = "named-numeric"
+				} else if e.feature == "exact" {
+					e.feature = "builtin-numeric"
+				}
+				continue
+			}
+		}
+		at := reflect.TypeOf(a)
+		switch {
+		case at == p:
+			in[i] = reflect.ValueOf(a)
+		case at.AssignableTo(p):
+			in[i] = reflect.ValueOf(a)
+			e.assignable = true
+			if e.feature == "exact" || e.feature == "builtin-numeric" {
+				e.feature = "interface-param"
+			}
+		default:
+			return expectation{mustError: true, why: fmt.Sprintf("argument %d of the wrong kind", i+1), whyKey: "wrong-kind"}
+		}
+	}
+	if e.anything {
+		return e
+	}
+	// well-formed: call the Go function directly
+	e.directCalled = true
+	var out []reflect.Value
+	func() {
+		defer func() {
+			if r := recover(); r != nil {
+				e.goPanicked = true
+			}
+		}()
+		out = fn.Call(in)
+	}()
+	if e.goPanicked {
+		e.mustError = true
+		e.why = "the Go function panics"
+		e.whyKey = "go-panic"
+		return e
+	}
+	for i, v := range out {
+		if i == len(out)-1 && t.Out(i) == errorType {
+			if !v.IsNil() {
+				e.goErr = v.Interface().(error)
+			}
+			break
+		}
+		e.results = append(e.results, normalise(v))
+	}
+	return e
+}
+
+// normalise delivers Go integers and floats as float64.
+func normalise(v reflect.Value) interface{} {
+	if v.Kind() == reflect.Interface {
+		if v.IsNil() {
+			return nil
+		}
+		v = v.Elem()
+	}
+	switch v.Kind() {
+	case reflect.Int, reflect.Int8, reflect.Int16, reflect.Int32, reflect.Int64:
+		return float64(v.Int())
+	case reflect.Uint, reflect.Uint8, reflect.Uint16, reflect.Uint32, reflect.Uint64, reflect.Uintptr:
+		return float64(v.Uint())
+	case reflect.Float32, reflect.Float64:
+		return v.Float()
+	}
+	return v.Interface()
+}
+
+func shape(results []interface{}) interface{} {
+	if len(results) == 1 {
+		return results[0]
+	}
+	if results == nil {
+		return []interface{}{}
+	}
+	return results
+}
+
+// same compares two ECAL values; NaN equals NaN, -0 differs from 0.
+func same(a, b interface{}) bool {
+	switch x := a.(type) {
+	case float64:
+		y, ok := b.(float64)
+		if !ok {
+			return false
+		}
+		if math.IsNaN(x) || math.IsNaN(y) {
+			return math.IsNaN(x) && math.IsNaN(y)
+		}
+		return math.Float64bits(x) == math.Float64bits(y)
+	case []interface{}:
+		y, ok := b.([]interface{})
+		if !ok || len(x) != len(y) {
+			return false
+		}
+		for i := range x {
+			if !same(x[i], y[i]) {
+				return false
+			}
+		}
+		return true
+	case map[interface{}]interface{}:
+		y, ok := b.(map[interface{}]interface{})
+		if !ok || len(x) != len(y) {
+			return false
+		}
+		for k, v := range x {
+			w, ok := y[k]
+			if !ok || !same(v, w) {
+				return false
+			}
+		}
+		return true
+	}
+	return reflect.DeepEqual(a, b)
+}
+
+// foreignNumber finds a Go number in a result that is not a float64.
+func foreignNumber(v interface{}) (string, bool) {
+	if l, ok := v.([]interface{}); ok {
+		for _, x := range l {
+			if k, bad := foreignNumber(x); bad {
+				return k, true
+			}
+		}
+		return "", false
+	}
+	if v == nil {
+		return "", false
+	}
+	if _, ok := v.(float64); ok {
+		return "", false
+	}
+	if isNumericKind(reflect.TypeOf(v).Kind()) {
+		return reflect.TypeOf(v).String(), true
+	}
+	return "", false
+}
+
+// ---------------------------------------------------------------------------
+// the check
+// ---------------------------------------------------------------------------
+
+type target struct {
+	name    string // stdlib name (math.sqrt) or synthetic name
+	class   string
+	adapter util.ECALFunction
+	gofn    reflect.Value // zero: no reference (totality only)
+	ecal    string        // how ECAL source calls it
+}
+
+type harness struct {
+	c *core.Ctx
+}
+
+func show(v interface{}) string {
+	s := fmt.Sprintf("%#v", v)
+	if len(s) > 160 {
+		s = s[:160] + "..."
+	}
+	return s
+}
+
+func showArgs(args []interface{}) []string {
+	r := make([]string, len(args))
+	for i, a := range args {
+		r[i] = show(a)
+	}
+	return r
+}
+
+func (h *harness) violation(key, what, stream string, idx int, tg *target, args []interface{}, extra map[string]interface{}) {
+	d := map[string]interface{}{"function": tg.name, "args": showArgs(args)}
+	if tg.gofn.IsValid() {
+		d["signature"] = tg.gofn.Type().String()
+	}
+	for k, v := range extra {
+		d[k] = v
+	}
+	h.c.Violation(key, what, stream, idx, d)
+}
+
+// callAdapter runs the real bridge under Guard.
+func callAdapter(tg *target, args []interface{}) (ret interface{}, err error, key, msg string, panicked bool) {
+	cp := append([]interface{}(nil), args...)
+	key, msg, panicked = core.Guard(func() {
+		ret, err = tg.adapter.Run("c19", nil, map[string]interface{}{}, 1, cp)
+	})
+	return
+}
+
+// judge applies the oracles to one adapter call. It returns a short outcome
+// class (for the evidence counters).
+func (h *harness) judge(stream string, idx int, tg *target, args []interface{}) string {
+	c := h.c
+	ret, err, key, msg, panicked := callAdapter(tg, args)
+	if panicked {
+		h.violation(key, "a panic escaped ECALFunctionAdapter.Run: "+strings.SplitN(msg, "\n", 2)[0], stream, idx, tg, args, map[string]interface{}{"panic": msg})
+		return "panic"
+	}
+	if ret == nil && err == nil {
+		// a single nil result is a result; only an absent result list is "neither"
+		if !(tg.gofn.IsValid() && resultCount(tg.gofn.Type()) == 1) {
+			h.violation("neither-result-nor-error", "Run returned neither results nor an error", stream, idx, tg, args, nil)
+			return "neither"
+		}
+	}
+	if err == nil {
+		if k, bad := foreignNumber(ret); bad {
+			cause := k
+			if tg.gofn.IsValid() {
+				// name the cause, not the witness: which declared result type let the number through
+				cause = declaredResultOf(tg.gofn.Type(), ret, k)
+			}
+			h.violation("result-not-float64:"+cause, "a Go number came back from the bridge without being converted to an ECAL number (float64)", stream, idx, tg, args,
+				map[string]interface{}{"result": show(ret)})
+			return "foreign-number"
+		}
+	}
+	if !tg.gofn.IsValid() {
+		return "total-only"
+	}
+	e := expect(tg.gofn, args)
+	switch {
+	case e.anything:
+		return "unspecified"
+	case e.mustError:
+		if err == nil {
+			h.violation("no-error:"+e.whyKey,
+				"the bridge returned a result although the statement demands an error: "+e.why, stream, idx, tg, args, map[string]interface{}{"result": show(ret)})
+			return "missing-error"
+		}
+		c.Nontrivial(core.Hash64(fmt.Sprintf("err|%s|%d", stream, idx)))
+		return "error-as-demanded"
+	}
+	// well-formed call
+	if err != nil && e.goErr == nil {
+		if e.assignable && !strictAssignable {
+			c.Event("observed.rejected-"+e.feature, 1)
+			return "rejected-assignable"
+		}
+		key := "wellformed-rejected:" + e.feature
+		what := "a well-formed call was rejected by the bridge instead of reaching the Go function"
+		if e.feature == "named-numeric" || e.feature == "builtin-numeric" {
+			key = "numeric-arg-rejected:" + e.feature
+			what = "a number passed for a numeric parameter did not arrive converted to the parameter's Go type: the bridge returned an error"
+		}
+		h.violation(key, what, stream, idx, tg, args, map[string]interface{}{"error": err.Error(), "expected": show(shape(e.results))})
+		return "rejected"
+	}
+	if e.goErr != nil {
+		if err == nil {
+			h.violation("go-error-lost", "the Go function returned a non-nil trailing error but the bridge returned no error", stream, idx, tg, args,
+				map[string]interface{}{"go_error": e.goErr.Error(), "result": show(ret)})
+			return "error-lost"
+		}
+		if err.Error() != e.goErr.Error() && e.assignable && !strictAssignable {
+			c.Event("observed.rejected-"+e.feature, 1)
+			return "rejected-assignable"
+		}
+		if err.Error() != e.goErr.Error() {
+			h.violation("go-error-changed", "the trailing Go error was not delivered as it is", stream, idx, tg, args,
+				map[string]interface{}{"go_error": e.goErr.Error(), "bridge_error": err.Error()})
+			return "error-changed"
+		}
+		c.Nontrivial(core.Hash64(fmt.Sprintf("goerr|%s|%d", stream, idx)))
+		return "go-error-delivered"
+	}
+	want := shape(e.results)
+	if !same(ret, want) {
+		key := "result-differs"
+		if tg.class == "identity" {
+			key = "conversion-differs:" + tg.gofn.Type().In(0).Kind().String()
+		}
+		h.violation(key, "the result differs from calling the Go function directly with Go's own conversions", stream, idx, tg, args,
+			map[string]interface{}{"result": show(ret), "expected": show(want)})
+		return "differs"
+	}
+	c.Nontrivial(core.Hash64(fmt.Sprintf("ok|%s|%d", stream, idx)))
+	return "result-equal"
+}
+
+// declaredResultOf names the declared type class of the result position that
+// holds a Go number of dynamic type dyn.
+func declaredResultOf(t reflect.Type, ret interface{}, dyn string) string {
+	n := resultCount(t)
+	vals := []interface{}{ret}
+	if l, ok := ret.([]interface{}); ok && n != 1 {
+		vals = l
+	}
+	for i, v := range vals {
+		if v == nil || i >= n {
+			continue
+		}
+		if _, isF := v.(float64); !isF && isNumericKind(reflect.TypeOf(v).Kind()) {
+			if t.Out(i).Kind() == reflect.Interface {
+				return "interface-result"
+			}
+			return t.Out(i).Kind().String()
+		}
+	}
+	return dyn
+}
+
+func resultCount(t reflect.Type) int {
+	n := t.NumOut()
+	if n > 0 && t.Out(n-1) == errorType {
+		n--
+	}
+	return n
+}
+
+var regOnce sync.Once
+
+func targets() []*target {
+	var ts []*target
+	// every generated stdlib entry
+	_, _, funcs := stdlib.GetStdlibSymbols()
+	sort.Strings(funcs)
+	for _, name := range funcs {
+		if strings.HasPrefix(name, "c19.") {
+			continue
+		}
+		f, ok := stdlib.GetStdlibFunc(name)
+		if !ok {
+			continue
+		}
+		tg := &target{name: name, class: "stdlib", adapter: f, ecal: name}
+		if strings.HasPrefix(name, "math.") {
+			if g, ok := goMath[strings.TrimPrefix(name, "math.")]; ok {
+				tg.gofn = reflect.ValueOf(g)
+			}
+		}
+		ts = append(ts, tg)
+	}
+	regOnce.Do(func() { stdlib.AddStdlibPkg("c19", "synthetic bridged functions") })
+	for _, b := range synthetic {
+		ad := stdlib.NewECALFunctionAdapter(reflect.ValueOf(b.fn), b.name)
+		stdlib.AddStdlibFunc("c19", b.name, ad)
+		ts = append(ts, &target{name: b.name, class: b.class, adapter: ad, gofn: reflect.ValueOf(b.fn), ecal: "c19." + b.name})
+	}
+	return ts
+}
+
+var wfStrings = []string{"", "a", "5", "h\u00e9llo", "1e3"}
+
+// wellFormedArgs draws an argument vector that fits the signature: the right
+// number of arguments, each of the parameter's kind (numbers from the
+// boundary table for numeric parameters).
+func wellFormedArgs(r *core.Rand, t reflect.Type) []interface{} {
+	pick := func(p reflect.Type) interface{} {
+		switch {
+		case isNumericKind(p.Kind()):
+			return numbers[r.Intn(len(numbers))]
+		case p.Kind() == reflect.String:
+			return wfStrings[r.Intn(len(wfStrings))]
+		case p.Kind() == reflect.Bool:
+			return r.Bool()
+		case p == reflect.TypeOf([]interface{}{}):
+			return [][]interface{}{{}, {1.0}, {1.0, "a", nil}, {[]interface{}{2.0}}}[r.Intn(4)]
+		case p == reflect.TypeOf(map[interface{}]interface{}{}):
+			return []map[interface{}]interface{}{{}, {"a": 1.0}, {1.0: "x", "l": []interface{}{}}}[r.Intn(3)]
+		case p.Kind() == reflect.Interface && p.NumMethod() == 0:
+			return universe[1+r.Intn(len(universe)-1)].v
+		case p.Kind() == reflect.Interface && reflect.TypeOf(ecalFn{}).Implements(p):
+			return ecalFn{}
+		case p == errorType:
+			return fmt.Errorf("an error value")
+		}
+		return universe[r.Intn(len(universe))].v
+	}
+	n := t.NumIn()
+	if t.IsVariadic() {
+		n--
+	}
+	var args []interface{}
+	for i := 0; i < n; i++ {
+		args = append(args, pick(t.In(i)))
+	}
+	if t.IsVariadic() {
+		for k := r.Intn(3); k > 0; k-- {
+			args = append(args, pick(t.In(n).Elem()))
+		}
+	}
+	return args
+}
+
+func argsOf(vec []int) []interface{} {
+	a := make([]interface{}, len(vec))
+	for i, u := range vec {
+		a[i] = universe[u].v
+	}
+	return a
+}
+
 // Run is the check.
 func Run(c *core.Ctx) {
+	h := &harness{c}
+	c.Note("rule", "stdlib.ECALFunctionAdapter around every generated stdlib entry (stdlib.GetStdlibSymbols; reference: the Go math function called directly) and around the synthetic Go functions of funcs.go (identity for all 13 numeric kinds and 5 named numeric types, 0..4 mixed parameters, interface{}/[]interface{}/map/string/bool/error/Stringer parameters, variadic, 0..3 results incl. interface-wrapped numbers, (T, error), 9 panicking functions, 6 plugin-style functions through the AddStdlibPluginFunc shape) x all argument vectors of length 0..3 over a 20-value universe (exhaustive) + random vectors of length 4..5; identity functions x 69 boundary numbers; the same functions called from ECAL source (c19.name(u1,u2) / math.name(...)) for all vectors of length 0..2 + random longer ones, compared with the direct adapter call. "+
+		"Reference: arity and Go assignability decide whether an error is demanded; numbers for numeric parameters are converted with Go's T(x) (no verdict when Go leaves T(x) undefined or an argument is NULL); results are the direct call's results with integers/floats as float64. "+
+		"Non-trivial = distinct (function, argument vector) pairs with a definite expectation that was met (result equal to the direct call, Go error delivered, error for an ill-formed call). Math order/exponent arguments beyond +-1000 for jn/yn/pow10/ldexp/inf are skipped.")
+	ts := targets()
+	c.Event("functions.bridged", int64(len(ts)))
+	U := len(universe)
+	n3 := vecCount(U, 3)
+	n4 := c.Pick(1500, 20000)
+	nwf := c.Pick(2500, 40000)
+	outcome := map[string]int64{}
+	for _, tg := range ts {
+		stream := "adapter-" + tg.name
+		for i := 0; i < n3; i++ {
+			if !c.Mine(stream, i) {
+				continue
+			}
+			args := argsOf(vecAt(U, i))
+			if slowOrder(tg.name, args) {
+				continue
+			}
+			c.Take(stream, i)
+			o := h.judge(stream, i, tg, args)
+			outcome[o]++
+			if i%3001 == 7 {
+				ret, err, _, _, _ := callAdapter(tg, args)
+				c.Sample(tg.class, map[string]interface{}{"function": tg.name, "args": showArgs(args), "result": show(ret), "error": fmt.Sprint(err), "outcome": o})
+			}
+		}
+		stream = "adapter45-" + tg.name
+		for i := 0; i < n4; i++ {
+			if !c.Mine(stream, i) {
+				continue
+			}
+			r := c.Rng(stream, i)
+			vec := make([]int, 4+r.Intn(2))
+			for k := range vec {
+				vec[k] = r.Intn(U)
+			}
+			args := argsOf(vec)
+			if slowOrder(tg.name, args) {
+				continue
+			}
+			c.Take(stream, i)
+			outcome[h.judge(stream, i, tg, args)]++
+		}
+		if tg.gofn.IsValid() {
+			stream = "wellformed-" + tg.name
+			for i := 0; i < nwf; i++ {
+				if !c.Take(stream, i) {
+					continue
+				}
+				args := wellFormedArgs(c.Rng(stream, i), tg.gofn.Type())
+				if slowOrder(tg.name, args) {
+					continue
+				}
+				outcome["wellformed:"+h.judge(stream, i, tg, args)]++
+			}
+		}
+		if tg.class == "identity" || tg.gofn.IsValid() && tg.gofn.Type().NumIn() == 1 && isNumericKind(tg.gofn.Type().In(0).Kind()) {
+			stream = "numbers-" + tg.name
+			for i, x := range numbers {
+				args := []interface{}{x}
+				if !c.Mine(stream, i) || slowOrder(tg.name, args) {
+					continue
+				}
+				c.Take(stream, i)
+				outcome["numbers:"+h.judge(stream, i, tg, args)]++
+			}
+		}
+	}
+	for k, n := range outcome {
+		c.Event("adapter."+k, n)
+	}
+	h.throughECAL(ts)
+}
+
+// ---------------------------------------------------------------------------
+// through ECAL source
+// ---------------------------------------------------------------------------
+
+var erpOnce sync.Once
+var sharedERP *interpreter.ECALRuntimeProvider
+
+func (h *harness) throughECAL(ts []*target) {
+	c := h.c
+	// one runtime provider for the whole run (no events are processed here)
+	erpOnce.Do(func() {
+		sharedERP = interpreter.NewECALRuntimeProvider("c19", &util.MemoryImportLocator{Files: map[string]string{}}, util.NewNullLogger())
+	})
+	erp := sharedERP
+	U := len(universe)
+	n2 := vecCount(U, 2)
+	nr := c.Pick(200, 3000)
+	outcome := map[string]int64{}
+	for _, tg := range ts {
+		stream := "ecal-" + tg.name
+		for i := 0; i < n2+nr; i++ {
+			if !c.Mine(stream, i) {
+				continue
+			}
+			var vec []int
+			if i < n2 {
+				vec = vecAt(U, i)
+			} else {
+				r := c.Rng(stream, i)
+				vec = make([]int, 3+r.Intn(2))
+				for k := range vec {
+					vec[k] = r.Intn(U)
+				}
+			}
+			args := argsOf(vec)
+			if slowOrder(tg.name, args) {
+				continue
+			}
+			c.Take(stream, i)
+			outcome[h.judgeECAL(erp, stream, i, tg, args)]++
+		}
+	}
+	nwf := c.Pick(600, 8000)
+	for _, tg := range ts {
+		if !tg.gofn.IsValid() {
+			continue
+		}
+		stream := "ecalwf-" + tg.name
+		for i := 0; i < nwf; i++ {
+			if !c.Take(stream, i) {
+				continue
+			}
+			args := wellFormedArgs(c.Rng(stream, i), tg.gofn.Type())
+			if slowOrder(tg.name, args) {
+				continue
+			}
+			outcome["wellformed:"+h.judgeECAL(erp, stream, i, tg, args)]++
+		}
+	}
+	for k, n := range outcome {
+		c.Event("ecal."+k, n)
+	}
+}
+
+func (h *harness) judgeECAL(erp *interpreter.ECALRuntimeProvider, stream string, idx int, tg *target, args []interface{}) string {
+	c := h.c
+	names := make([]string, len(args))
+	vs := scope.NewScope(scope.GlobalScope)
+	for i, a := range args {
+		names[i] = fmt.Sprintf("a%d", i)
+		vs.SetValue(names[i], a)
+	}
+	src := tg.ecal + "(" + strings.Join(names, ", ") + ")"
+	var val interface{}
+	var err error
+	key, msg, panicked := core.Guard(func() {
+		var ast *parser.ASTNode
+		if ast, err = parser.ParseWithRuntime("c19", src, erp); err != nil {
+			return
+		}
+		if err = ast.Runtime.Validate(); err != nil {
+			return
+		}
+		val, err = ast.Runtime.Eval(vs, map[string]interface{}{}, 1)
+	})
+	if panicked {
+		h.violation(key, "a panic reached the host while ECAL source called a bridged function: "+strings.SplitN(msg, "\n", 2)[0], stream, idx, tg, args, map[string]interface{}{"source": src, "panic": msg})
+		return "panic"
+	}
+	dret, derr, _, _, dpanicked := callAdapter(tg, args)
+	if dpanicked {
+		return "direct-panic" // reported by the adapter streams
+	}
+	if derr != nil {
+		re, ok := err.(*util.RuntimeError)
+		if !ok {
+			h.violation("ecal-error-not-runtime-error", fmt.Sprintf("the bridge's error reached ECAL as %T instead of a runtime error", err), stream, idx, tg, args,
+				map[string]interface{}{"source": src, "ecal_error": fmt.Sprint(err), "direct_error": derr.Error()})
+			return "not-runtime-error"
+		}
+		if re.Type != util.ErrRuntimeError || re.Detail != derr.Error() {
+			h.violation("ecal-error-differs", "the runtime error seen by ECAL does not carry the bridge's error", stream, idx, tg, args,
+				map[string]interface{}{"source": src, "ecal_error": err.Error(), "direct_error": derr.Error()})
+			return "error-differs"
+		}
+		c.Nontrivial(core.Hash64(fmt.Sprintf("ecalerr|%s|%d", stream, idx)))
+		return "error-agrees"
+	}
+	if err != nil {
+		h.violation("ecal-error-only-through-source", "calling through ECAL source failed although the direct call succeeds", stream, idx, tg, args,
+			map[string]interface{}{"source": src, "ecal_error": err.Error(), "direct_result": show(dret)})
+		return "ecal-only-error"
+	}
+	if !same(val, dret) {
+		h.violation("ecal-value-differs", "the value seen by ECAL differs from the direct call", stream, idx, tg, args,
+			map[string]interface{}{"source": src, "ecal_value": show(val), "direct_result": show(dret)})
+		return "value-differs"
+	}
+	c.Nontrivial(core.Hash64(fmt.Sprintf("ecalok|%s|%d", stream, idx)))
+	return "value-agrees"
 }
